@@ -1,0 +1,16 @@
+//go:build verif
+
+package ast
+
+// Verification hooks (build tag "verif" only): expose the unexported item
+// header routines so that every size can be swept without materialising items.
+
+// VerifHeaderBytes exposes getHeaderBytes.
+func VerifHeaderBytes(typ string, size int) ([]byte, error) {
+	return getHeaderBytes(typ, size)
+}
+
+// VerifDataByteLength exposes getDataByteLength.
+func VerifDataByteLength(typ string, size int) int {
+	return getDataByteLength(typ, size)
+}
